@@ -179,7 +179,7 @@ def run(chk):
     if dbin is None:
         chk.fail("harness h_calls (dylib) does not compile against the current headers", {"log_tail": dlog[-3000:]}, found=False)
     else:
-        core.differential(chk, ["dywho"], dbin, cc.oracle_c12, label="two libraries, same names (dylib)", impl_env=cc.env_for("dylib"))
+        core.differential(chk, ["dywho", "dymiss"], dbin, cc.oracle_c12, label="two libraries, same names / a name only one of them exports (dylib)", impl_env=cc.env_for("dylib"))
     kinds = {}
     for o, a in zip(ops, res["impl"]):
         k = o.split()[0] + ":" + (a.split()[0] if a else "?") + ("" if not a.startswith("abort") or len(a.split()) < 2 else ":" + a.split()[1])
@@ -190,7 +190,7 @@ def run(chk):
                        "4 argument wrapper forms {plain (nullptr for pointers), tainted, tainted_opaque, tainted_volatile lvalue} x 3 live instances, boundary/random values (70% fully valid calls), "
                        "guest implementations record arguments and call counts; by-name lookup and function addresses on three instances bound to two libraries exporting the same names, in random orders")
     chk.add_samples([{"op": o, "impl": a} for o, a in list(zip(ops, res["impl"]))[6::max(1, len(ops) // 6)]])
-    chk.cov["trusted_base"] += ["C11: the calling convention and the machine code of the call are trusted; the dylib backend's by-name path (dlsym) is not executed, re-creation with another library is covered by C14",
+    chk.cov["trusted_base"] += ["C11: the calling convention and the machine code of the call are trusted; the dylib backend's by-name path (dlsym) is executed only by the `dywho` / `dymiss` scenarios (two libraries exporting the same names; a name only one exports while the process exports it too), re-creation with another library is covered by C14",
                                 "mixed wrapper forms within one call are not generated (one form per call)"]
 
 
